@@ -274,6 +274,17 @@ def run(ctx):
                 and (meta["shape"] == "checksig" or meta["segwit"] or not (meta["flags"] >> FB["CONST_SCRIPTCODE"]) & 1) and "end=OK final=01" not in im:
             ctx.violation(l, {"stream": "sigops-expect", "impl": im, "meta": meta, "why": "a signature made by the independent signer over the BIP-defined digest was not accepted"})
     ctx.notes.append("sigops histogram: " + "; ".join(f"{k}:{v}" for k, v in sorted(hist.items())))
+    # signature opcodes without a transaction: the encoding rules decide alone (every signature shape x key shape, m-of-n mixtures)
+    sl = []
+    for (sv, script, stack, lab) in R.sigop_cases(rnd, 100 if quick else 3000):
+        fl = R.STD
+        if rnd.random() < 0.6:
+            for nm in R.SIGOP_FLAGS:
+                if rnd.random() < 0.35: fl &= ~(1 << FB[nm])
+        sl.append(R.run_line(sv, fl, script, stack))
+    if quick:
+        sl = sl[ctx.seed % 2::2]
+    R.three_way(ctx, "sigop-encodings", sl)
     # tapscript
     tcases = tap_cases(rnd, quick)
     tl = [c[0] for c in tcases]
